@@ -60,12 +60,18 @@ def rand_path(rng, dist=False, hostile=0.5):
 
 
 def rand_hex(rng, n):
-    return ''.join(rng.choice('0123456789abcdef') for _ in range(n))
+    # (digests are usually written in lower case, but a Manifest may carry them in
+    # upper or mixed case; they are text to the format)
+    alphabet = rng.choice(['0123456789abcdef'] * 3 + ['0123456789ABCDEF',
+                                                       '0123456789abcdefABCDEF'])
+    return ''.join(rng.choice(alphabet) for _ in range(n))
 
 
 SIZES = [0, 1, 2, 9, 10, 127, 128, 255, 4096, 2**31 - 1, 2**31, 2**32, 2**53 + 1,
          2**63 - 1, 2**63, 2**64 - 1, 2**64, 2**64 + 1, 10**30]
-SUM_NAMES = list(mtext.GLEP_HASHES) + ['FOO', 'SHA_1', 'x', 'BLAKE2B_256', 'sha256']
+SUM_NAMES = list(mtext.GLEP_HASHES) + ['FOO', 'SHA_1', 'x', 'BLAKE2B_256', 'sha256',
+                                       '__size__', '__exists__', '{', '}', '{0}', '{}',
+                                       'SHA{512', '%s', '{name}']
 
 
 def rand_sums(rng):
@@ -121,8 +127,11 @@ BAD_PATHS = ['/abs', '/', '\\x2Fetc/passwd', '\\u002Fx', '\\U0000002Fx',
 EITHER_PATHS = ['\\uD800', 'a\\uDFFFb', '\\U0000D800']
 GOOD_SIZES = ['0', '1', '42', '000', '18446744073709551616', '007']
 BAD_SIZES = ['-1', '-42', 'x', '1x', '0x10', '1.0', '1e3', '', '--1', 'ten',
-             '1,000', '\u221e']
-EITHER_SIZES = ['+1', '-0', '1_0', '\u0663', '\uff11\uff12']
+             '1,000', '\u221e',
+             # characters str.isdigit() accepts but int() does not, and a number
+             # beyond Python's int <-> str conversion limit
+             '\u00b2', '1\u00b3', '\u2460', '\u2082\u2084']
+EITHER_SIZES = ['+1', '-0', '1_0', '\u0663', '\uff11\uff12', '9' * 5000]
 GOOD_TS = ['2017-10-22T18:06:41Z', '1000-01-01T00:00:00Z', '9999-12-31T23:59:59Z',
            '0999-01-01T00:00:00Z', '0001-01-01T00:00:00Z', '2020-02-29T12:00:00Z']
 BAD_TS = ['2017-10-22', '2017-10-22T18:06:41', '2017-10-22 18:06:41Z', 'now',
